@@ -89,17 +89,18 @@ class RollingReduction(Expr):
             by = self.groupby_kwargs.get("by", []) if self.groupby_kwargs else []
             by_columns = by if not isinstance(by, Expr) else []
             columns = determine_column_projection(self, parent, dependents, by_columns)
-            columns = [col for col in self.frame.columns if col in columns]
+            if self.groupby_kwargs is not None and not isinstance(columns, list):
+                columns = [columns]
+            if isinstance(columns, list):
+                columns = [col for col in self.frame.columns if col in columns]
             if columns == self.frame.columns:
                 return
-            if self.groupby_kwargs is not None:
-                return type(parent)(
-                    type(self)(self.frame[columns], *self.operands[1:]),
-                    *parent.operands[1:],
-                )
-            if len(columns) == 1:
-                columns = columns[0]
-            return type(self)(self.frame[columns], *self.operands[1:])
+            result = type(self)(self.frame[columns], *self.operands[1:])
+            if self.groupby_kwargs is None and columns == parent.operand("columns"):
+                return result
+            # Keep the parent: it fixes the order and dimensionality of the
+            # output and `columns` may include what other dependents need
+            return type(parent)(result, *parent.operands[1:])
 
     @property
     def _is_blockwise_op(self):
